@@ -198,3 +198,14 @@ contract(f"{PBA}::PengBaoRangeAlgorithm.create_challenge_response", "range.creat
                   "implies(cs < L or ct < L, len(calls('rnd')) == 4)"],
          covers=["len(calls('generate_response')) == 1", "len(calls('rnd')) == 4"],
          note="the honest answer is given exactly for the challenges _safe_rndint can produce (both components >= LARGE_INTEGER)")
+
+# range proofs: certainty is a conjunction over the processed challenge responses - with NO processed response (a fresh aggregate, or the
+# one reported after a failed honesty check) nothing has been proven and "in range" scores 0
+contract(f"{PBA}::PengBaoRangeAlgorithm.certainty", "range.certainty.nothing-proven-without-a-response",
+         vars={"self": OBJ(f"{PBA}::PengBaoRangeAlgorithm", key_size=EXPR("32")), "r1": BOOL, "r2": BOOL, "att": ANY,
+               "agg": EXPR("dict([('attestation', att), ('c1', r1), ('c2', r2)][:1 + n_resp])")},
+         instances=[{"n_resp": 0}, {"n_resp": 1}, {"n_resp": 2}],
+         call="(self.certainty(b'\\x01', agg), self.certainty(b'\\x00', agg))", raises=[],
+         ensures=["result[0] == (1.0 if n_resp > 0 and all([r1, r2][:n_resp]) else 0.0)", "result[1] == 1.0 - result[0]"],
+         bounded="0..2 processed responses",
+         note="'in range' is certain only if at least one challenge was answered and every answered challenge checked out")
